@@ -13,7 +13,7 @@ import random
 
 from vlib import corpus, e2e, engine, gen, netsynth as ns, outparse, quicsynth, scene, tcpcap, tlssynth
 
-KINDS = ["delete", "cut", "keys", "keys-cut", "cbc-pad", "wrongkeys", "suite", "flip", "overwrite", "shorten", "noise-http", "noise-udp", "noise-udp-short"]
+KINDS = ["delete", "cut", "keys", "keys-cut", "cbc-pad", "flip-hello", "wrongkeys", "suite", "flip", "overwrite", "shorten", "noise-http", "noise-udp", "noise-udp-short"]
 UNKNOWN_SUITES = [0x0A0A, 0x0000, 0xFFFF, 0xC03C, 0x0001, 0x1306, 0x5600, 0xFAFA]
 
 
@@ -114,7 +114,7 @@ def build(tier, seed):
     return dict(cases=cases, evalfn=evalfn, level="fault_enumeration", min_nontrivial=60, extra=extra,
                 rule="per scene and fault kind (every sixth scene has a long victim: 180-360 short records, so that much piles up behind a fault): delete each victim packet; cut before each packet; every subset of the victim's key-log lines (TLS 1.3/QUIC all 2^4-2^5 "
                      "subsets, <=1.2 present/absent); the key log cut inside one of the victim's lines; secrets replaced by random ones; ServerHello suite id replaced by 8 unknown/unsupported/GREASE values; bit flip at every "
-                     "byte of the handshake packets and at sampled bytes elsewhere; all 256 values of the padding-length-controlling ciphertext byte of a protected CBC record; overwrite; shorten; plain HTTP on 443; UDP payloads with every first byte x lengths "
+                     "byte of the handshake packets and at sampled bytes elsewhere; every bit of the structural bytes of both hello segments; all 256 values of the padding-length-controlling ciphertext byte of a protected CBC record; overwrite; shorten; plain HTTP on 443; UDP payloads with every first byte x lengths "
                      "1..1500 and all lengths 1..8, with and without -a. Class = (victim kind, fault kind, position class, outcome); non-trivial = the fault run completed "
                      "and bystanders/victim were compared against the fault-free run of the same scene",
                 assumptions=["fault-free run of the scene is exact (checked per scene; otherwise inconclusive)"])
@@ -272,6 +272,22 @@ def eval_case(case, seed, thorough):
             its = scene.merge([f2] + flows[1:], random.Random(1), "concat")
             scene.stamp(its, random.Random(2), "plain")
             faults.append((f"ServerHello announces suite {code:#06x}", its, ks, [], oracle))
+    elif kind == "flip-hello":
+        # every single bit of the structural bytes of the victim's ClientHello and ServerHello: record header (type, version, length), message header, hello version,
+        # and - behind the 32-byte random - session-id length, session id, suite, compression, extensions length, first extension header.  One flipped bit there makes
+        # the two sides of TLExport's state disagree (version vs. cipher class, lengths vs. content) in ways random flips rarely hit
+        if victim.kind == "tls" and (thorough or case["scene"] % 3 == 1):
+            for d_ in "cs":
+                first = next((i for i in vidx if items[i].seg.dir == d_ and items[i].seg.woff == 0), None)
+                if first is None:
+                    continue
+                pl = items[first].seg.payload
+                sid = pl[43] if len(pl) > 43 else 0
+                offs = list(range(0, 11)) + list(range(43, min(len(pl), 43 + 1 + sid + 10)))
+                for j in [o for o in offs if o < len(pl)]:
+                    for bit in range(8):
+                        newit = reframe(items[first], vep, lambda p_, j=j, bit=bit: p_[:j] + bytes([p_[j] ^ (1 << bit)]) + p_[j + 1:])
+                        faults.append((f"bit {bit} of byte {j} of the victim's {'ClientHello' if d_ == 'c' else 'ServerHello'} segment flipped", items[:first] + [newit] + items[first + 1:], keys, [], "ab"))
     elif kind in ("flip", "overwrite", "shorten"):
         hs_idx = vidx[:4]
         for rep in range(40 if thorough else 14):
